@@ -627,6 +627,8 @@ func genFacts(repo string) []byte {
 	// Lock types (iota enum in litefs.go / db.go)
 	b.WriteString("\n" + genGates(repo, files) + "\n")
 	b.WriteString(genWriteLockSeq(files["db.go"]) + "\n")
+	b.WriteString(genSnapshotSeq(files["db.go"], "Export", "exportSeq") + "\n")
+	b.WriteString(genSnapshotSeq(files["db.go"], "WriteSnapshotTo", "snapshotSeq") + "\n")
 	b.WriteString("end LiteFSVerif.Gen.Facts\n")
 	return []byte(b.String())
 }
@@ -734,5 +736,55 @@ func genWriteLockSeq(db *ast.File) string {
 	})
 	fmt.Fprintf(&b, "def writeLockSeq : List (String × String) := [%s]\n", strings.Join(calls, ", "))
 	fmt.Fprintf(&b, "def writeLockLoops : Nat := %d\n", loops)
+	return b.String()
+}
+
+// genSnapshotSeq records, in source order, the guard calls `gs.<lock>.<Method>` and the reads of
+// the state that must be captured under the write lock (db.Pos, db.PageN, db.wal.frameOffsets) made
+// by Export / WriteSnapshotTo, plus whether a checksum self-check against pos.PostApplyChecksum exists.
+func genSnapshotSeq(db *ast.File, fn, lean string) string {
+	fd := findFunc(db, "DB", fn)
+	var b strings.Builder
+	if fd == nil {
+		fmt.Fprintf(&b, "def %s : List (String × String) := []\ndef %sSelfCheck : Bool := false\n", lean, lean)
+		return b.String()
+	}
+	var calls []string
+	selfCheck := false
+	seenOffsets := false
+	ast.Inspect(fd.Body, func(n ast.Node) bool {
+		switch x := n.(type) {
+		case *ast.DeferStmt:
+			return false // the deferred gs.Unlock() is not part of the sequence
+		case *ast.CallExpr:
+			if p, ok := selPath(x.Fun); ok {
+				parts := strings.Split(p, ".")
+				if len(parts) == 3 && parts[0] == "gs" {
+					calls = append(calls, fmt.Sprintf("(%q, %q)", parts[1], parts[2]))
+				}
+				if p == "db.Pos" {
+					calls = append(calls, `("capture", "pos")`)
+				}
+				if p == "db.PageN" {
+					calls = append(calls, `("capture", "pageN")`)
+				}
+			}
+		case *ast.RangeStmt:
+			if p, ok := selPath(x.X); ok && p == "db.wal.frameOffsets" && !seenOffsets {
+				seenOffsets = true
+				calls = append(calls, `("capture", "frameOffsets")`)
+			}
+		case *ast.BinaryExpr:
+			if x.Op == token.NEQ {
+				if p, ok := selPath(x.Y); ok && p == "pos.PostApplyChecksum" {
+					selfCheck = true
+				}
+			}
+		}
+		return true
+	})
+	fmt.Fprintf(&b, "/-- guard calls and state captures of `%s` in source order -/\n", fn)
+	fmt.Fprintf(&b, "def %s : List (String × String) := [%s]\n", lean, strings.Join(calls, ", "))
+	fmt.Fprintf(&b, "def %sSelfCheck : Bool := %v\n", lean, selfCheck)
 	return b.String()
 }
